@@ -2291,5 +2291,135 @@ proof { assert(fold.seen() =~= vx_s0 + self.pending()); }
 
 }
 
+
+// ---- unit qiter, parallel leg: externals of query/result/par_iter.rs (rayon plumbing, A11)
+/// rayon's `Consumer::Result` of the user's consumer, as the multiset of items that went into it
+#[verifier::external_body]
+#[verifier::accept_recursive_types(R)]
+pub struct VxParResult<R: Registry> { p: PhantomData<R> }
+impl<R: Registry> VxParResult<R> { pub uninterp spec fn items(&self) -> vstd::multiset::Multiset<VxItemId<R>>; }
+#[verifier::external_body]
+#[verifier::accept_recursive_types(R)]
+pub struct VxReducer<R: Registry> { p: PhantomData<R> }
+impl<R: Registry> VxReducer<R> {
+    /// rayon `Reducer::reduce`: the union of what both sides consumed
+    #[verifier::external_body]
+    pub fn reduce(self, a: VxParResult<R>, b: VxParResult<R>) -> (r: VxParResult<R>)
+        ensures r.items() == a.items().add(b.items()) { unimplemented!() }
+}
+#[verifier::external_body]
+#[verifier::accept_recursive_types(R)]
+pub struct VxParFolder<R: Registry> { p: PhantomData<R> }
+impl<R: Registry> VxParFolder<R> {
+    /// a folder that was fed nothing completes to the empty result
+    #[verifier::external_body]
+    pub fn complete(self) -> (r: VxParResult<R>) ensures r.items() == vstd::multiset::Multiset::<VxItemId<R>>::empty() { unimplemented!() }
+}
+/// the user's rayon consumer
+#[verifier::external_body]
+#[verifier::accept_recursive_types(R)]
+pub struct VxConsumer<R: Registry> { p: PhantomData<R> }
+impl<R: Registry> VxConsumer<R> {
+    #[verifier::external_body]
+    pub fn split_off_left(&self) -> (r: VxConsumer<R>) { unimplemented!() }
+    #[verifier::external_body]
+    pub fn to_reducer(&self) -> (r: VxReducer<R>) { unimplemented!() }
+    #[verifier::external_body]
+    pub fn into_folder(self) -> (r: VxParFolder<R>) { unimplemented!() }
+    #[verifier::external_body]
+    pub fn full(&self) -> (r: bool) { unimplemented!() }
+}
+/// R6: the parallel row iterator of one table (`Archetype::par_view(..).reshape().into_parallel_iterator()`;
+/// K-parview decides the columns per instance)
+#[verifier::external_body]
+#[verifier::accept_recursive_types(R)]
+#[verifier::accept_recursive_types(V)]
+pub struct VxParRows<R: Registry, V> { p: PhantomData<(R, V)> }
+impl<R: Registry, V> VxParRows<R, V> {
+    pub uninterp spec fn items(&self) -> Seq<VxItemId<R>>;
+    /// rayon drives every item of an indexed parallel iterator into the consumer exactly once
+    #[verifier::external_body]
+    pub fn drive_unindexed(self, consumer: VxConsumer<R>) -> (r: VxParResult<R>)
+        ensures r.items() == self.items().to_multiset() { unimplemented!() }
+}
+#[verifier::external_body]
+pub fn vx_par_view_rows<R: Registry, V>(t: &mut archetype::Archetype<R>) -> (r: VxParRows<R, V>)
+    ensures r.items() == vx_items_of(*old(t)), *final(t) == *old(t)
+{ unimplemented!() }
+
+pub struct ResultsFolder<Consumer, Previous, Filter, Views, Indices> {
+    pub base: Consumer,
+    pub previous: Option<Previous>,
+
+    pub filter: PhantomData<Filter>,
+    pub views: PhantomData<Views>,
+    pub indices: PhantomData<Indices>,
+}
+
+
+impl<Registry: crate::Registry, Filter, Views, Indices> ResultsFolder<VxConsumer<Registry>, VxParResult<Registry>, Filter, Views, Indices> {
+    /// C09: what this folder has driven into the user's consumer so far
+    pub open spec fn acc(&self) -> vstd::multiset::Multiset<VxItemId<Registry>> {
+        match self.previous { Some(p) => p.items(), None => vstd::multiset::Multiset::empty() }
+    }
+}
+
+impl<Registry: crate::Registry, Filter, Views, Indices> ResultsFolder<VxConsumer<Registry>, VxParResult<Registry>, Filter, Views, Indices> {
+    pub fn consume(self, archetype: &mut archetype::Archetype<Registry>) -> (r: Self)
+        ensures
+            r.acc() == self.acc().add(if vx_matches::<Registry, Filter, Views>(*old(archetype)) { vx_items_of(*old(archetype)).to_multiset() } else { vstd::multiset::Multiset::empty() }),
+            *final(archetype) == *old(archetype),
+    {
+
+
+        if vx_filter::<Registry, Filter, Views>(archetype) {
+            let consumer = self.base.split_off_left();
+            let result =
+
+                vx_par_view_rows::<Registry, Views>(archetype).drive_unindexed(consumer);
+
+            let previous = match self.previous {
+                None => Some(result),
+                Some(previous) => {
+                    let reducer = self.base.to_reducer();
+                    Some(reducer.reduce(previous, result))
+                }
+            };
+
+            ResultsFolder {
+                base: self.base,
+                previous,
+
+                filter: self.filter,
+                views: self.views,
+                indices: self.indices,
+            }
+        } else {
+            self
+        }
+    
+    }
+
+    pub fn complete(self) -> (r: VxParResult<Registry>)
+        ensures
+            r.items() == self.acc(),
+    {
+
+        match self.previous {
+            Some(previous) => previous,
+            None => self.base.into_folder().complete(),
+        }
+    
+    }
+
+    pub fn full(&self) -> (r: bool)
+    {
+
+        self.base.full()
+    
+    }
+
+}
+
 } // verus!
 fn main() {}
